@@ -10,6 +10,7 @@ def gen(rng, tier):
     cases = [core.case_from_struct(G.gen_single_bar(rng), Weight=core.weights(i)) for i in range(n1)]
     cases += [core.case_from_struct(G.gen_frame(rng), Weight=core.weights(i)) for i in range(n2)]
     cases += [core.case_from_struct(G.gen_twins(rng), Weight=core.weights(i)) for i in range(6 if tier == "quick" else 100)]
+    cases += [core.case_from_struct(G.gen_pinned_near_end(rng), Weight=False) for i in range(8 if tier == "quick" else 100)]
     return cases
 
 
